@@ -191,76 +191,90 @@ impl Matcher {
     }
 
     /// Sort transactions by date and merge same-day same-ticker buys/sells.
+    ///
+    /// All acquisitions of one security on one day form a single acquisition
+    /// (TCGA92/S105(1)(a)) wherever their lines appear; consecutive sells are merged.
     fn preprocess(&self, mut transactions: Vec<GbpTransaction>) -> Vec<GbpTransaction> {
         transactions.sort_by(|a, b| a.date.cmp(&b.date));
 
-        let mut merged = Vec::new();
-        if transactions.is_empty() {
-            return merged;
-        }
+        let mut merged: Vec<GbpTransaction> = Vec::new();
+        // Position in `merged` of the day's acquisition per ticker
+        let mut day_buys: HashMap<String, usize> = HashMap::new();
+        let mut current_date = None;
+        // Whether the previous input line was a sell that the next sell may join
+        let mut open_sell: Option<usize> = None;
 
-        let mut current = transactions[0].clone();
+        for next in transactions {
+            if current_date != Some(next.date) {
+                current_date = Some(next.date);
+                day_buys.clear();
+                open_sell = None;
+            }
 
-        for next in transactions.into_iter().skip(1) {
-            if next.date == current.date && next.ticker == current.ticker {
-                match (&mut current.operation, next.operation) {
-                    (
-                        Operation::Buy {
-                            amount: current_amount,
-                            price: current_price,
-                            fees: current_fees,
-                        },
-                        Operation::Buy {
-                            amount: next_amount,
-                            price: next_price,
-                            fees: next_fees,
-                        },
-                    ) => {
-                        // Merge using GBP values (already Decimal)
-                        let total_cost =
-                            (*current_amount * *current_price) + (next_amount * next_price);
-                        *current_amount += next_amount;
-                        if *current_amount != Decimal::ZERO {
-                            *current_price = total_cost / *current_amount;
-                        }
-                        *current_fees += next_fees;
-                    }
-                    (
-                        Operation::Sell {
-                            amount: current_amount,
-                            price: current_price,
-                            fees: current_fees,
-                        },
-                        Operation::Sell {
-                            amount: next_amount,
-                            price: next_price,
-                            fees: next_fees,
-                        },
-                    ) => {
-                        // Merge using GBP values (already Decimal)
-                        let total_proceeds =
-                            (*current_amount * *current_price) + (next_amount * next_price);
-                        *current_amount += next_amount;
-                        if *current_amount != Decimal::ZERO {
-                            *current_price = total_proceeds / *current_amount;
-                        }
-                        *current_fees += next_fees;
-                    }
-                    (_, next_op) => {
-                        merged.push(current);
-                        current = GbpTransaction {
-                            date: next.date,
-                            ticker: next.ticker,
-                            operation: next_op,
-                        };
-                    }
+            let slot = match &next.operation {
+                Operation::Buy { .. } => {
+                    open_sell = None;
+                    day_buys.get(&next.ticker).copied()
                 }
-            } else {
-                merged.push(current);
-                current = next;
+                Operation::Sell { .. } => open_sell.filter(|&pos| {
+                    merged
+                        .get(pos)
+                        .is_some_and(|current: &GbpTransaction| current.ticker == next.ticker)
+                }),
+                _ => {
+                    open_sell = None;
+                    None
+                }
+            };
+
+            let Some(slot) = slot else {
+                match &next.operation {
+                    Operation::Buy { .. } => {
+                        day_buys.insert(next.ticker.clone(), merged.len());
+                    }
+                    Operation::Sell { .. } => open_sell = Some(merged.len()),
+                    _ => {}
+                }
+                merged.push(next);
+                continue;
+            };
+
+            if let (
+                Some(GbpTransaction {
+                    operation:
+                        Operation::Buy {
+                            amount: current_amount,
+                            price: current_price,
+                            fees: current_fees,
+                        }
+                        | Operation::Sell {
+                            amount: current_amount,
+                            price: current_price,
+                            fees: current_fees,
+                        },
+                    ..
+                }),
+                Operation::Buy {
+                    amount: next_amount,
+                    price: next_price,
+                    fees: next_fees,
+                }
+                | Operation::Sell {
+                    amount: next_amount,
+                    price: next_price,
+                    fees: next_fees,
+                },
+            ) = (merged.get_mut(slot), next.operation)
+            {
+                // Merge using GBP values (already Decimal)
+                let total_value = (*current_amount * *current_price) + (next_amount * next_price);
+                *current_amount += next_amount;
+                if *current_amount != Decimal::ZERO {
+                    *current_price = total_value / *current_amount;
+                }
+                *current_fees += next_fees;
             }
         }
-        merged.push(current);
 
         merged
     }
